@@ -14,7 +14,8 @@ Proof.
 Qed.
 
 Lemma ty_eqb_eq_mut :
-  (forall a b, ty_eqb a b = true -> a = b) /\ (forall r s, rows_eqb r s = true -> r = s).
+  (forall a b, ty_eqb a b = true -> a = b) /\ (forall r s, rows_eqb r s = true -> r = s) /\
+  (forall r s, erows_eqb r s = true -> r = s).
 Proof.
   apply ty_rows_ind; intros.
   - destruct b; simpl in *; try discriminate; reflexivity.
@@ -26,10 +27,17 @@ Proof.
     apply andb_true_iff in H1. destruct H1. f_equal; [apply H|apply H0]; assumption.
   - destruct b; simpl in *; try discriminate. f_equal. apply H. assumption.
   - destruct b; simpl in *; try discriminate. f_equal. apply H. assumption.
-  - destruct b; simpl in *; try discriminate. f_equal. apply tags_eqb_eq. assumption.
+  - destruct b; simpl in *; try discriminate. f_equal. apply H. assumption.
   - destruct b; simpl in *; try discriminate. f_equal. apply Nat.eqb_eq. assumption.
   - destruct b; simpl in *; try discriminate. f_equal. apply H. assumption.
   - destruct s; simpl in *; try discriminate. reflexivity.
+  - destruct s; simpl in *; try discriminate.
+    apply andb_true_iff in H1. destruct H1 as [H1 H3]. apply andb_true_iff in H1. destruct H1 as [H1 H2].
+    apply String.eqb_eq in H1. subst. f_equal; [apply H|apply H0]; assumption.
+  - destruct s; simpl in *; try discriminate. reflexivity.
+  - destruct s; simpl in *; try discriminate.
+    apply andb_true_iff in H0. destruct H0 as [H1 H2]. apply String.eqb_eq in H1. subst.
+    f_equal. apply H. assumption.
   - destruct s; simpl in *; try discriminate.
     apply andb_true_iff in H1. destruct H1 as [H1 H3]. apply andb_true_iff in H1. destruct H1 as [H1 H2].
     apply String.eqb_eq in H1. subst. f_equal; [apply H|apply H0]; assumption.
@@ -51,7 +59,8 @@ Proof. destruct a; reflexivity. Qed.
 Lemma subb_sound_mut :
   (forall a b, subb a b = true -> sub a b) /\
   (forall r, (forall u, rows_all_subb r u = true -> rows_sub_all r u) /\
-             (forall s, rows_subb r s = true -> rows_sub r s)).
+             (forall s, rows_subb r s = true -> rows_sub r s)) /\
+  (forall e : erows, True).
 Proof.
   apply ty_rows_ind; intros.
   - rewrite subb_eq in H. apply orb_true_iff in H. destruct H as [H|H]; [apply ty_eqb_eq in H; subst; constructor|destruct b; discriminate].
@@ -71,7 +80,7 @@ Proof.
   - (* TDict *)
     rewrite subb_eq in H0. apply orb_true_iff in H0. destruct H0 as [H0|H0]; [apply ty_eqb_eq in H0; subst; constructor|].
     destruct b; try discriminate. apply S_Dict. apply H. assumption.
-  - rewrite subb_eq in H. apply orb_true_iff in H. destruct H as [H|H]; [apply ty_eqb_eq in H; subst; constructor|destruct b; discriminate].
+  - rewrite subb_eq in H0. apply orb_true_iff in H0. destruct H0 as [H0|H0]; [apply ty_eqb_eq in H0; subst; constructor|destruct b; discriminate].
   - rewrite subb_eq in H. apply orb_true_iff in H. destruct H as [H|H]; [apply ty_eqb_eq in H; subst; constructor|destruct b; discriminate].
   - rewrite subb_eq in H0. apply orb_true_iff in H0. destruct H0 as [H0|H0]; [apply ty_eqb_eq in H0; subst; constructor|destruct b; discriminate].
   - (* RNil *)
@@ -83,9 +92,40 @@ Proof.
     + intros s Hs. destruct s; simpl in Hs; try discriminate.
       apply andb_true_iff in Hs. destruct Hs as [Hs H3]. apply andb_true_iff in Hs. destruct Hs as [H1 H2].
       apply String.eqb_eq in H1. subst. constructor; [apply H; assumption|apply Hboth; assumption].
+  - exact I.
+  - exact I.
+  - exact I.
 Qed.
 
 Definition subb_sound := proj1 subb_sound_mut.
+
+(* ------------------------------------------------------------------------- match arms *)
+
+Lemma find_branch_map : forall {A B} (f : A -> B) t a (bs : list (string * option string * A)),
+  find_branch t a (map (fun b => (fst b, f (snd b))) bs) =
+  match find_branch t a bs with Some (x, b) => Some (x, f b) | None => None end.
+Proof.
+  induction bs as [|[[u x] b] bs IH]; simpl; [reflexivity|].
+  destruct (String.eqb t u && Bool.eqb a match x with Some _ => true | None => false end); [reflexivity|apply IH].
+Qed.
+
+Lemma exhaustive_sound : forall r bs e, exhaustive r e bs = true ->
+  forall t, erows_lookup t e <> None -> forall p, erows_lookup t r = Some p ->
+  find_branch t (match p with Some _ => true | None => false end) bs <> None.
+Proof.
+  induction e as [|u e IH|u U e IH]; simpl; intros Hex t Hin p Hl.
+  - exfalso. apply Hin. reflexivity.
+  - apply andb_true_iff in Hex. destruct Hex as [Hrow Hrest].
+    destruct (String.eqb t u) eqn:Heq.
+    + apply String.eqb_eq in Heq. subst. rewrite Hl in Hrow.
+      destruct (find_branch u match p with Some _ => true | None => false end bs); [discriminate|discriminate].
+    + apply IH; assumption.
+  - apply andb_true_iff in Hex. destruct Hex as [Hrow Hrest].
+    destruct (String.eqb t u) eqn:Heq.
+    + apply String.eqb_eq in Heq. subst. rewrite Hl in Hrow.
+      destruct (find_branch u match p with Some _ => true | None => false end bs); [discriminate|discriminate].
+    + apply IH; assumption.
+Qed.
 
 (* induction principle for certificates (nested lists) *)
 Section atm_ind'.
@@ -101,7 +141,8 @@ Section atm_ind'.
   Hypothesis HArr : forall T es, Forall P es -> P (AArr T es).
   Hypothesis HRec : forall fs, Forall (fun fe => P (snd fe)) fs -> P (ARec fs).
   Hypothesis HProj : forall e f, P e -> P (AProj e f).
-  Hypothesis HTag : forall t tags, P (ATag t tags).
+  Hypothesis HTag : forall t r, P (ATag t r).
+  Hypothesis HVariant : forall t e r, P e -> P (AVariant t e r).
   Hypothesis HMatch : forall e T bs d, P e -> Forall (fun b => P (snd b)) bs ->
                         (forall b, d = Some b -> P b) -> P (AMatch e T bs d).
   Hypothesis HPrim : forall o insts, P (APrim o insts).
@@ -131,10 +172,11 @@ Section atm_ind'.
                              | fe :: fs' => Forall_cons fe (atm_ind' (snd fe)) (go fs')
                              end) fs)
     | AProj e f => HProj e f (atm_ind' e)
-    | ATag t tags => HTag t tags
+    | ATag t r => HTag t r
+    | AVariant t e r => HVariant t e r (atm_ind' e)
     | AMatch e T bs d =>
         HMatch e T bs d (atm_ind' e)
-          ((fix go (bs : list (string * atm)) : Forall (fun b => P (snd b)) bs :=
+          ((fix go (bs : list (string * option string * atm)) : Forall (fun b => P (snd b)) bs :=
               match bs with
               | [] => Forall_nil _
               | b :: bs' => Forall_cons b (atm_ind' (snd b)) (go bs')
@@ -226,20 +268,31 @@ Section Sound.
       destruct Te; try discriminate.
       eapply T_Proj; [apply IHa; eassumption|assumption].
     - (* Tag *)
-      destruct (existsb (String.eqb t) tags) eqn:Hex; [|discriminate].
-      inversion Hi; subst. apply T_Tag. apply existsb_exists in Hex.
-      destruct Hex as [x [Hin Heq]]. apply String.eqb_eq in Heq. subst. assumption.
+      destruct (erows_lookup t r) as [[A|]|] eqn:Hl; try discriminate.
+      inversion Hi; subst. apply T_Tag. assumption.
+    - (* Variant *)
+      destruct (erows_lookup t r) as [[A|]|] eqn:Hl; try discriminate.
+      destruct (infer Sg G a) as [A'|] eqn:He; [|discriminate].
+      destruct (ty_eqb A A') eqn:Hq; [|discriminate].
+      apply ty_eqb_eq in Hq. subst. inversion Hi; subst.
+      eapply T_Variant; [eassumption|]. apply IHa. assumption.
     - (* Match *)
       destruct (infer Sg G a) as [Te|] eqn:He; [|discriminate].
       destruct Te; try discriminate.
       match type of Hi with (if ?c then _ else _) = _ => destruct c eqn:Hall; [|discriminate] end.
-      assert (Hbs : has_branches Sg G (map (fun b => (fst b, erase (snd b))) bs) T).
-      { clear Hi H0. induction bs as [|[t b] bs IHbs]; simpl; [constructor|].
+      assert (Hbs : has_branches Sg G e (map (fun b => (fst b, erase (snd b))) bs) T).
+      { clear Hi H0. induction bs as [|[[t x] b] bs IHbs]; simpl; [constructor|].
         inversion H as [|? ? Hhd Htl]; subst. simpl in Hhd.
-        destruct (infer Sg G b) as [T'|] eqn:Hb; [|discriminate].
-        apply andb_true_iff in Hall. destruct Hall as [Hq Hrest].
-        apply ty_eqb_eq in Hq. subst. constructor; [apply Hhd; assumption|].
-        apply IHbs; assumption. }
+        destruct x as [x|].
+        - destruct (erows_lookup t e) as [[A|]|] eqn:Hl; try discriminate.
+          destruct (infer Sg ((x, A) :: G) b) as [T'|] eqn:Hb; [|discriminate].
+          apply andb_true_iff in Hall. destruct Hall as [Hq Hrest].
+          apply ty_eqb_eq in Hq. subst. eapply HB_arg; [eassumption|apply Hhd; assumption|].
+          apply IHbs; assumption.
+        - destruct (infer Sg G b) as [T'|] eqn:Hb; [|discriminate].
+          apply andb_true_iff in Hall. destruct Hall as [Hq Hrest].
+          apply ty_eqb_eq in Hq. subst. apply HB_bare; [apply Hhd; assumption|].
+          apply IHbs; assumption. }
       destruct d as [b|].
       + destruct (infer Sg G b) as [T'|] eqn:Hb; [|discriminate].
         destruct (ty_eqb T T') eqn:Hq; [|discriminate].
@@ -249,14 +302,14 @@ Section Sound.
       + match type of Hi with (if ?c then _ else _) = _ => destruct c eqn:Hex; [|discriminate] end.
         inversion Hi; subst.
         eapply T_Match; [apply IHa; eassumption|assumption|].
-        intros t Hin. rewrite forallb_forall in Hex. specialize (Hex t Hin).
-        apply existsb_exists in Hex. destruct Hex as [[t' b'] [Hin' Heq]]. simpl in Heq.
-        apply String.eqb_eq in Heq. subst t'.
-        clear - Hin'. induction bs as [|[y c] bs IHb]; simpl in *; [contradiction|].
-        destruct (String.eqb t y) eqn:Hty; [discriminate|].
-        destruct Hin' as [Heq|Hin'].
-        * inversion Heq; subst. rewrite String.eqb_refl in Hty. discriminate.
-        * apply IHb. assumption.
+        intros t p Hl.
+        pose proof (exhaustive_sound e _ e Hex t) as Hx.
+        assert (Hne : erows_lookup t e <> None) by (rewrite Hl; discriminate).
+        specialize (Hx Hne p Hl).
+        rewrite (find_branch_map (fun _ : atm => tt)) in Hx.
+        rewrite (find_branch_map erase).
+        destruct (find_branch t match p with Some _ => true | None => false end bs) as [[x b]|]; [discriminate|].
+        exfalso. apply Hx. reflexivity.
     - (* Prim *)
       destruct (Sg o) as [T1|] eqn:Hs; [|discriminate].
       eapply inst_sound; [eassumption|]. apply T_Prim. assumption.
